@@ -416,7 +416,12 @@ def _r7_r8(chk: Check, sf: Surface) -> None:
                             'identifier, and no operator / keyword rule can match across a line break', floor=1)
     R8 = chk.rule('C06.R8', 'every tree comes out of the LALR parser: each returning path of SqParser.parse returns the cached '
                             'tree for this text or the tree the yacc run on this text left behind - nothing is parsed by other means', floor=1)
-    chk.decided += ['tokenisation cannot split identifiers or glue lines (R7)', 'no parsing shortcut outside the tables (R8)']
+    R9 = chk.rule('C06.R9', 'the tree is a function of the derivation: the action of a production builds the same tree whatever its '
+                            'children contain (no comparison of child subtrees, no position found by equality with a child)', floor=40)
+    chk.decided += ['tokenisation cannot split identifiers or glue lines (R7)', 'no parsing shortcut outside the tables (R8)',
+                    'actions do not look into their children (R9)']
+    from .c09 import _r3 as content_independent
+    content_independent(chk, R9)
     from .c18 import identifier_prefix_thieves, ident_token
     from . import lexfacts as LF
     IDENT = ident_token(lm)
